@@ -185,6 +185,14 @@ func c13(c *Check) {
 	c.Rule("C13/packet-genesis-binding", "each field of the packet GenesisState is exported from and imported into its own key family, with (src,dst,seq[,data]) in order", 8)
 	packetGenesisBinding(c, "C13/packet-genesis-binding")
 
+	c.Rule("C13/export-passes-own-validation", "the reward-vesting genesis validator validates the parameters of the exported state with the same value-typed validator that parameter changes use (Params.validate → validatePerBlockReward(m.PerBlockReward)), so a state reachable through accepted parameter changes still validates after export", 3)
+	c.Spec("C13/export-passes-own-validation", Macros{}, FnSpec{Fn: "x/rvesting/types.Params.validate",
+		Returns: []Ret{{Label: "validates-the-reward-value", Index: 0, Want: []string{"nil", "rvesting/types.validatePerBlockReward($0.PerBlockReward)"}}},
+		Effects: []Eff{{Label: "value-typed-argument", Callee: "rvesting/types.validatePerBlockReward", N: 1, Args: map[int]string{0: "$0.PerBlockReward"}}},
+	})
+	c.Spec("C13/export-passes-own-validation", Macros{}, FnSpec{Fn: "x/rvesting/types.ValidateGenesis",
+		Guards: []G{{"params", "reject (rvesting/types.(*Params).validate($0.Params) != nil)"}}})
+
 	c.Rule("C13/fresh-decode-target", "a value decoded inside an iterator loop is decoded into a target allocated in that loop iteration (protobuf Unmarshal appends to repeated fields of a reused target, so a hoisted target accumulates the entries of earlier iterations into later ones)", 3)
 	freshDecodeRule(c, "C13/fresh-decode-target")
 
@@ -248,7 +256,7 @@ func tokenisationRule(c *Check, rule string, fams map[string][]*StoreWrite) {
 		}
 		x := c.P.Ex(fn)
 		for _, cs := range c.P.CallsIn(fn) {
-			if cs.Name != "strings.Split" && cs.Name != "strings.SplitN" {
+			if cs.Name != "strings.Split" && cs.Name != "strings.SplitN" && cs.Name != "bytes.Split" && cs.Name != "bytes.SplitN" {
 				continue
 			}
 			call, ok := cs.Ins.(*ssa.Call)
@@ -262,13 +270,16 @@ func tokenisationRule(c *Check, rule string, fams map[string][]*StoreWrite) {
 			// is the subject an iterator key?
 			subj := args[0]
 			var iterPrefix string
+			segOffset := 0 // separators contributed by the store's own prefix: a prefix store strips them from Key()
 			found := false
 			subj.Walk(func(e *Expr) {
 				if e.IsCall("types.Iterator.Key") && len(e.Args) == 1 && !found {
 					it := e.Args[0]
 					if it.IsCall("types.KVStorePrefixIterator") || it.IsCall("types.KVStoreReversePrefixIterator") {
 						if cv, ok := it.Val.(*ssa.Call); ok {
-							iterPrefix = normShape(c.P.storePrefix(x.E(cv.Call.Args[0]), nil, 0) + c.P.ShapeExpr(x.E(cv.Call.Args[1])))
+							sp := normShape(c.P.storePrefix(x.E(cv.Call.Args[0]), nil, 0))
+							segOffset = strings.Count(sp, "/")
+							iterPrefix = sp + normShape(c.P.ShapeExpr(x.E(cv.Call.Args[1])))
 							found = true
 						}
 					}
@@ -297,19 +308,19 @@ func tokenisationRule(c *Check, rule string, fams map[string][]*StoreWrite) {
 				if j := strings.Index(f, "⟨slice⟩"); j >= 0 && (i < 0 || j < i) {
 					i = j
 				}
-				seg := strings.Count(f[:i], "/")
+				seg := strings.Count(f[:i], "/") - segOffset
 				if seg < minSeg {
 					minSeg = seg
 				}
 			}
 			limit := -1 // SplitN bound
-			if cs.Name == "strings.SplitN" {
+			if strings.HasSuffix(cs.Name, ".SplitN") {
 				if k, ok := call.Call.Args[2].(*ssa.Const); ok {
 					limit = int(k.Int64())
 				}
 			}
 			bad := ""
-			if cs.Name == "strings.Split" || limit <= 0 || limit-1 > minSeg {
+			if strings.HasSuffix(cs.Name, ".Split") || limit <= 0 || limit-1 > minSeg {
 				// element count and all positions >= minSeg are unstable: any use of len() or such an index is unsound
 				for _, r := range *call.Referrers() {
 					switch u := r.(type) {
